@@ -348,8 +348,23 @@ def r3(report, db, cg, M):
             if isinstance(p, ast.Assign) and isinstance(p.value, ast.Call) \
                     and ast.unparse(p.value.func) in ('deque',
                                                       'collections.deque') \
-                    and not p.value.args:
-                report.ok(R, '%s: queue re-created empty' % fi.qualname)
+                    and not p.value.args and not p.value.keywords:
+                report.ok(R, '%s: queue re-created empty and unbounded'
+                          % fi.qualname)
+            elif isinstance(p, ast.Assign) and isinstance(
+                    p.value, ast.Call) and ast.unparse(p.value.func) in (
+                        'deque', 'collections.deque') and (
+                            len(p.value.args) > 1 or any(
+                                k.arg == 'maxlen' and not (isinstance(
+                                    k.value, ast.Constant)
+                                    and k.value.value is None)
+                                for k in p.value.keywords)):
+                report.violation(R, 'queue:bounded:%s' % fi.qualname,
+                                 fi.path, node, fi.qualname, 'the outgoing '
+                                 'queue is a bounded deque (%s): appending '
+                                 'to a full one silently discards the '
+                                 'oldest queued packet, which then never '
+                                 'reaches the wire' % ast.unparse(p.value))
             else:
                 report.violation(R, 'queue:store:%s' % fi.qualname, fi.path,
                                  node, fi.qualname, 'the queue is replaced '
